@@ -114,7 +114,24 @@ def neighbours(r, p):
     if p != b"":
         out.append(("empty", b""))
     out.append(("sha-of-p", ref_prehash(p)))       # the pre-hash itself must not be accepted
+    # passwords are BYTE strings: what looks the same, or is the same text in another normal form / case / width, is another password
+    try:
+        import unicodedata
+        t = p.decode("utf-8")
+        for form in ("NFC", "NFD", "NFKC", "NFKD"):
+            out.append(("unicode-" + form, unicodedata.normalize(form, t).encode("utf-8")))
+        out += [("upper", t.upper().encode("utf-8")), ("lower", t.lower().encode("utf-8")), ("casefold", t.casefold().encode("utf-8")),
+                ("strip", t.strip().encode("utf-8")), ("latin-1", t.encode("latin-1", "ignore")), ("utf-16", t.encode("utf-16-le"))]
+    except UnicodeDecodeError:
+        pass
     return [(k, q) for k, q in out if q != p]
+
+
+# byte-wise different passwords that are the same text under some normalisation
+LOOKALIKES = [("caf\u00e9".encode("utf-8"), "cafe\u0301".encode("utf-8")), ("\u212b".encode("utf-8"), "\u00c5".encode("utf-8")),
+              ("\ufb01le".encode("utf-8"), b"file"), ("\uff21".encode("utf-8"), b"A"), ("Stra\u00dfe".encode("utf-8"), b"Strasse"),
+              (b"password", b"Password"), (b"password", b"password "), ("\u03a9".encode("utf-8"), "\u2126".encode("utf-8")),
+              ("a\u0308\u0323".encode("utf-8"), "a\u0323\u0308".encode("utf-8")), (b"\xef\xbb\xbfpw", b"pw")]
 
 
 B64CH = ["A", "/", "+", "=", "!", " ", "\n", "é", "-", "_", ":"]
@@ -284,6 +301,21 @@ def run_shard(cfg):
         if len(samples) < 2:
             samples.append({"kind": "real-cost", "password": short(p), "hash": h,
                             "neighbours": [(k, short(q)) for k, q in nb[:2]]})
+    # ---- look-alike pairs (one per shard at real cost, both directions)
+    pa, pb = LOOKALIKES[(cfg["shard"] + cfg["seed"]) % len(LOOKALIKES)]
+    for p_, q_ in ((pa, pb), (pb, pa)):
+        try:
+            h_ = Auth.hash_password(p_)
+            res = Auth.verify_password(q_, h_)
+            ok_ = Auth.verify_password(p_, h_)
+            counters.inc("kdf_calls", 3)
+            counters.inc("lookalike_pairs_checked")
+            if res is not False or ok_ is not True:
+                viol("wrong-password-accepted" if res is not False else "right-password-rejected",
+                     "verify(%r, hash(%r)) = %r, verify(p, hash(p)) = %r (byte-wise different passwords that are the same text under a normalisation)" % (q_, p_, res, ok_),
+                     {"p": short(p_), "q": short(q_), "kind": "lookalike"})
+        except Exception as e:
+            viol("right-password-raises", "look-alike pair raised %r" % (e,), {"p": short(p_)})
     # ---- the documented class attributes SALT_LENGTH / DIGEST_LENGTH are configuration: records made under one setting are
     #      self-describing and verify under any other (one real-cost case per shard)
     configs = [(8, 32), (32, 32), (16, 64), (24, 16), (1, 1), (33, 47)]
@@ -426,7 +458,7 @@ def finish(tier, seed, results):
     m = merge(results)
     inconclusive = []
     need(m["counters"], ["right_password_checked", "wrong_password_checked", "fresh_salt_checked",
-                         "corruptions", "malformed_raised", "control_true", "control_false", "kdf_calls", "configurations_ok"], inconclusive)
+                         "corruptions", "malformed_raised", "control_true", "control_false", "kdf_calls", "configurations_ok", "lookalike_pairs_checked"], inconclusive)
     cov = {
         "evaluations": m["evaluations"],
         "distinct_nontrivial": m["distinct_nontrivial"],
